@@ -854,13 +854,106 @@ func widenOf(fd *ast.FuncDecl, unrec *[]string) (out []widenEntry, delegate stri
 	return out, delegate
 }
 
+// ---------- run.go convert: its arms, in source order ----------
+
+type convArm struct{ Guard, Act string }
+
+// convClosure classifies the closure assigned to n.exec by an arm of convert.
+func convClosure(fl *ast.FuncLit, flagConst bool) string {
+	var body []ast.Stmt
+	for _, s := range fl.Body.List {
+		if _, ok := s.(*ast.ReturnStmt); ok {
+			continue
+		}
+		body = append(body, s)
+	}
+	if len(body) != 1 {
+		return "unrecognised"
+	}
+	switch src(body[0]) {
+	case "dest(f).Set(reflect.New(typ).Elem())":
+		return "zeroValue"
+	case "fn(value(f), dest(f))":
+		return "hook"
+	case "if doConvert { dest(f).Set(value(f).Convert(typ)) } else { dest(f).Set(value(f)) }":
+		if flagConst { // doConvert := true is its only assignment: the else branch is dead
+			return "reflectConvert"
+		}
+	}
+	return "unrecognised"
+}
+
+// execOf finds the single `n.exec = func…` below a statement (nil, 0 if none).
+func execOf(s ast.Node) (fl *ast.FuncLit, count int) {
+	ast.Inspect(s, func(n ast.Node) bool {
+		if as, ok := n.(*ast.AssignStmt); ok && len(as.Lhs) == 1 && src(as.Lhs[0]) == "n.exec" {
+			count++
+			fl, _ = as.Rhs[0].(*ast.FuncLit)
+			return false
+		}
+		return true
+	})
+	return fl, count
+}
+
+// convertArms walks run.go convert: every top-level statement that installs a closure is an arm.
+func convertArms(fd *ast.FuncDecl, unrec *[]string) []convArm {
+	var out []convArm
+	// doConvert must be assigned exactly once, by `doConvert := true`
+	nAssign, okInit := 0, false
+	ast.Inspect(fd.Body, func(n ast.Node) bool {
+		if as, ok := n.(*ast.AssignStmt); ok {
+			for _, l := range as.Lhs {
+				if src(l) == "doConvert" {
+					nAssign++
+					okInit = okInit || src(as) == "doConvert := true"
+				}
+			}
+		}
+		return true
+	})
+	flagConst := nAssign == 1 && okInit
+	for _, st := range fd.Body.List {
+		fl, cnt := execOf(st)
+		if cnt == 0 {
+			continue // bindings (dest, c, typ, next, doConvert, value)
+		}
+		arm := convArm{Act: "unrecognised"}
+		switch x := st.(type) {
+		case *ast.IfStmt:
+			arm.Guard = src(x.Cond)
+			if x.Else != nil || cnt != 1 {
+				fl = nil
+			}
+		case *ast.RangeStmt:
+			arm.Guard = "range " + src(x.X)
+			if cnt != 1 {
+				fl = nil
+			}
+		case *ast.AssignStmt:
+			arm.Guard = ""
+		default:
+			arm.Guard = "unrecognised: " + src(st)
+			fl = nil
+		}
+		if fl != nil {
+			arm.Act = convClosure(fl, flagConst)
+		}
+		if arm.Act == "unrecognised" {
+			*unrec = append(*unrec, fmt.Sprintf("convert: arm with guard %q", arm.Guard))
+		}
+		out = append(out, arm)
+	}
+	return out
+}
+
 func main() {
 	common.Main("C02", func(repo string) (string, error) {
 		fset, opf, err := common.ParseFile(repo, "interp/op.go")
 		if err != nil {
 			return "", err
 		}
-		_, runf, err := common.ParseFile(repo, "interp/run.go")
+		fsetRun, runf, err := common.ParseFile(repo, "interp/run.go")
 		if err != nil {
 			return "", err
 		}
@@ -965,6 +1058,20 @@ func main() {
 			fmt.Fprintf(&b, "  ⟨.%s, .%s, %s⟩%s\n", e.Fn, clsLean(e.Cls), e.Conv, sep)
 		}
 		b.WriteString("]\n\n/-- the functions of interp/op.go, sorted -/\ndef opFunctions : List String :=\n  " + common.LeanStrList(fns) + "\n")
+		// run.go convert
+		b.WriteString("\n/-- interp/run.go convert: its arms in source order (guard as written, action of the closure) -/\ndef convertArms : List ConvArm := [")
+		if fd := common.FindFunc(runf, "", "convert"); fd == nil {
+			w.unrec = append(w.unrec, "run.go: func convert not found")
+		} else {
+			for i, a := range convertArms(fd, &w.unrec) {
+				if i > 0 {
+					b.WriteString(", ")
+				}
+				fmt.Fprintf(&b, "⟨%s, .%s⟩", common.LeanStr(a.Guard), a.Act)
+			}
+		}
+		b.WriteString("]\n\n/-- fingerprint of the functions read structurally only -/\ndef sourceHashes : List (String × String) :=\n  " +
+			common.HashTable(fsetRun, runf, [][2]string{{"", "convert"}}) + "\n")
 		b.WriteString("\n/-- source constructs the extractor could not interpret (must be empty) -/\ndef unrecognised : List String :=\n  " + common.LeanStrList(w.unrec) + "\n")
 		b.WriteString("\nend YaegiVerif.Generated.C02\n")
 		return b.String(), nil
